@@ -92,6 +92,10 @@ def run(res, tier, build_ok):
                         kw = {"ndob": 1} if ndob else {}
                         if rng.random() < 0.4:
                             kw.update({"group": rng.getrandbits(5), "wrprotect": rng.getrandbits(3)})
+                        if rng.random() < 0.4:
+                            # UNMAP / ANCHOR: a conformant target either deallocates (only when the block equals what an
+                            # unmapped block reads as) or writes; either way the range then reads as the Data-Out block
+                            kw.update({"unmap": 1, "anchor": rng.getrandbits(1)})
                         getattr(fac, "writesame%d" % w)(lba, nb, blk, **kw)
                         for i in range(nb):
                             disk[lba + i] = bytes(bs) if ndob else bytes(blk)
